@@ -2,6 +2,7 @@
 import json
 
 import gen
+import chainhist
 import vlib
 from vlib import Recorder, Report, b2l, call, exc_info, text
 
@@ -143,7 +144,8 @@ def run(tier):
     recs = drive(tier)
     mm = vlib.validate("Trace_Address", recs)
     rep.apply_mismatches(recs, mm)
-    rep.cov["evaluations"] = len(recs)
+    nchain = chainhist.run_for(rep, "C12", tier)
+    rep.cov["evaluations"] = nchain + len(recs)
     rep.cov["traces_validated_against_impl"] = len({x["tid"] for x in recs})
     rep.cov["trace_records"] = len(recs)
     rep.cov["by_op"] = {op: sum(1 for x in recs if x["op"] == op) for op in {x["op"] for x in recs}}
